@@ -275,10 +275,13 @@ pub fn run_case(o: &mut Obs, spec: &WSpec, ops: &[WOp], path: usize, use_writer:
                 let c = root.chunk_mut();
                 let n = c.len();
                 // in-contract surface first: Debug, immutable indexing, raw views
+                let mut tmp = [0u8; 4];
+                let from_slice: &mut bytes::buf::UninitSlice = (&mut tmp[..]).into();
+                let from_len = from_slice.len();
                 let dbg = format!("{:?}", c);
                 let half = (&*c)[..n / 2].len();
                 let raw = unsafe { c.as_uninit_slice_mut().len() };
-                if !dbg.contains("UninitSlice") || half != n / 2 || raw != n || (&mut c[n / 2..]).len() != n - n / 2 {
+                if from_len != 4 || !dbg.contains("UninitSlice") || half != n / 2 || raw != n || (&mut c[n / 2..]).len() != n - n / 2 {
                     viol(o, spec, "uninit-slice-surface", case, "UninitSlice Debug / Index / as_uninit_slice_mut disagree with len()");
                     return crate::rng::fnv_u64(dg, 15);
                 }
@@ -395,8 +398,9 @@ pub fn run_case(o: &mut Obs, spec: &WSpec, ops: &[WOp], path: usize, use_writer:
             return crate::rng::fnv_u64(dg, 3);
         }
         let rm = w.get_ref().remaining_mut();
+        let rm2 = w.get_mut().remaining_mut();
         if let Some(r) = room {
-            if rm != r - want {
+            if rm != r - want || rm2 != rm {
                 o.viol("C12", "writer-get_ref", case, &format!("Writer::get_ref().remaining_mut()={rm}, expected {}", r - want));
                 return crate::rng::fnv_u64(dg, 3);
             }
